@@ -152,6 +152,7 @@ void simnet_partition(uint32_t ip_a, uint32_t ip_b, int on);
 void simnet_stall_port(uint16_t server_port, int toward_server, int on);
 void simnet_blackhole(uint32_t ip, uint16_t port, int on);
 void simnet_kill_conns_of(uint32_t ip, uint16_t port); // reset all conns whose server side is ip:port
+void simnet_ebadf_close_fatal(int on); // close() of a descriptor that is not open ends the run as C10 'descriptor_closed_twice'
 void simnet_sigpipe_fatal(int on); // EPIPE without MSG_NOSIGNAL in a thread that has not blocked SIGPIPE ends the run as C11 'sigpipe'
 int  simnet_inflight(void); // bytes/segments in flight
 // connect() log for C14: callback invoked on every connect() by library code
